@@ -66,4 +66,11 @@ var propSpecs = []PropSpec{
 		NotDecided:  "absence of all data races (no happens-before model of third-party code); LintFiles == LintFile result equality; agreement of the two derivations of a reusable workflow's interface is decided under C14.SIB",
 		Assumptions: commonAssumptions,
 	},
+	{
+		ID:          "C20",
+		Rules:       []string{"C20.WG", "C20.SEMA", "C20.ONEPROC", "C20.WAIT", "C20.ERR", "C20.MU", "C20.ONCE", "C01.PIPE"},
+		Explanation: "Decides the ordering/typestate clauses of the tool integration: wg.Add before the goroutine and defer wg.Done first (WG); Acquire -> the single call of cmdExecution.run -> Release -> callback by dominance, bound = runtime.NumCPU() (SEMA); one limiter per Lint* invocation, never per file (ONEPROC); every return after the limiter was handed out is dominated by proc.wait(), eg.Wait before it, rules return cmd.wait() (WAIT); a failed tool run is accepted only under ExitError, exit-code and output tests, and no link of the chain run -> callback -> errgroup -> cmd.wait -> Visit -> check -> Lint* drops its error (ERR); diagnostics from tool goroutines are appended under the rule's mutex (MU); each step starts the tool once (ONCE); stdin is not written before the process starts (PIPE).",
+		NotDecided:  "equal-length placeholder substitution; parsing of tool output; which shell a step uses",
+		Assumptions: commonAssumptions,
+	},
 }
